@@ -91,10 +91,15 @@ impl Prop for C37 {
                     }
                     _ => {
                         // put the counter where `retry_count` is after that many counted calls
-                        let c = match rng.weighted(&[2, 3, 1]) {
+                        let c = match rng.weighted(&[2, 3, 1, 4]) {
                             0 => rng.below(100) as u32,
                             1 => u32::MAX - rng.below(4) as u32,
-                            _ => rng.next() as u32,
+                            2 => rng.next() as u32,
+                            // around the policy's own limit: one left, used up, beyond
+                            _ => match lim.parse::<u32>() {
+                                Ok(l) => (l as i64 + rng.range(-2, 2)).clamp(0, u32::MAX as i64) as u32,
+                                Err(_) => rng.below(5) as u32,
+                            },
                         };
                         out.push(format!("setcount {}", c));
                     }
@@ -197,7 +202,7 @@ impl R {
 
 /// `Client::get_server_endpoints_from_url` (→ `AsyncSecureChannel::connect`) against a loopback
 /// listener that drops every connection; returns (gave up within the time allowed, connections seen)
-fn connect_attempts(limit: u32) -> (bool, usize) {
+fn connect_attempts(limit: i32) -> (bool, usize) {
     use std::sync::atomic::{AtomicBool, AtomicUsize, Ordering};
     use std::sync::Arc;
     let listener = std::net::TcpListener::bind("127.0.0.1:0").expect("bind");
@@ -223,7 +228,7 @@ fn connect_attempts(limit: u32) -> (bool, usize) {
         .pki_dir(crate::fixtures::scratch_dir().join("c37-pki"))
         .create_sample_keypair(false)
         .trust_server_certs(true)
-        .session_retry_limit(limit as i32)
+        .session_retry_limit(limit)
         .session_retry_initial(Duration::from_millis(1))
         .session_retry_max(Duration::from_millis(4))
         .client()
@@ -282,12 +287,22 @@ impl Runner for R {
                 Some(0),
                 Duration::from_millis(500),
             ),
+            ["connect", "-"] => {
+                // `session_retry_limit < 0` in the client configuration = unlimited policy
+                let (gave_up, attempts) = connect_attempts(-1);
+                let v = if gave_up {
+                    Verdict::fail("connect_retry_limit", "connect-unlimited", format!("gave up after {} attempts although the policy has no limit", attempts))
+                } else {
+                    Verdict::Ok
+                };
+                (if gave_up { format!("ok gaveup=1 attempts={}", attempts) } else { "ok gaveup=0".to_string() }, v)
+            }
             ["connect", lim] => {
                 let lim: u32 = lim.parse().unwrap();
                 if lim >= 64 {
                     return ("bad-op".to_string(), Verdict::Ok);
                 }
-                let (gave_up, attempts) = connect_attempts(lim);
+                let (gave_up, attempts) = connect_attempts(lim as i32);
                 let class = format!("connect-limit-{}", if lim == 0 { "0" } else { "n" });
                 // the property, on the user of the policy: `limit` retries, i.e. limit + 1 attempts
                 let v = if !gave_up {
